@@ -1,4 +1,5 @@
 import Clikit.Model.Resolver
+import Clikit.Lemmas.Resolver
 /-!
 # C03 - the resolver selects the deepest command named by the leading tokens
 
@@ -287,5 +288,120 @@ example : (walk (namedColl [server]) none ["srv".toList, "a".toList]).map (·.2)
 example : (walk (namedColl [server]) none ["server".toList, "nope".toList, "add".toList]).map (·.2)
     = some ["server".toList] := by decide
 example : lead ["server".toList, "--".toList, "add".toList] = ["server".toList] := by decide
+
+/-! ## The hypothesis of `alias_invariant` is decided by the model on every real tree
+
+`SameLookups coll ls ls'` is a fact about the command tree of the REAL application (which alias
+denotes which command depends on names shadowing aliases and on the registration order of colliding
+aliases).  `sameLookupsB` (Model/Resolver.lean) is an executable sufficient check; the driver evaluates
+it on the tree read from the real application, for the leading tokens of every generated line against
+their respellings (entry `c03.same`), and the harness compares the answer with what the real
+`CommandCollection`s say. -/
+
+/-- **The check is sound**: when it answers `true` the two name lists look up the same commands. -/
+theorem sameLookupsB_sound : ∀ (ls ls' : List Str) (coll : Coll),
+    sameLookupsB coll ls ls' = true → SameLookups coll ls ls' := by
+  intro ls
+  induction ls with
+  | nil =>
+    intro ls' coll h
+    cases ls' with
+    | nil => exact .nil
+    | cons n' r' => simp [sameLookupsB] at h
+  | cons n r ih =>
+    intro ls' coll h
+    cases ls' with
+    | nil => simp [sameLookupsB] at h
+    | cons n' r' =>
+      simp only [sameLookupsB] at h
+      cases hk : coll.key? n with
+      | none =>
+        cases hk' : coll.key? n' with
+        | none => exact .stop (key?_none _ _ hk) (key?_none _ _ hk')
+        | some k' => simp [hk, hk'] at h
+      | some k =>
+        cases hk' : coll.key? n' with
+        | none => simp [hk, hk'] at h
+        | some k' =>
+          simp only [hk, hk', Bool.and_eq_true, beq_iff_eq] at h
+          obtain ⟨hkk, hrest⟩ := h
+          subst hkk
+          obtain ⟨c, hc⟩ := key?_some _ _ _ hk
+          simp only [hc] at hrest
+          exact .step (key?_get _ _ _ _ hk hc) (key?_get _ _ _ _ hk' hc) (ih _ _ hrest)
+
+/-- `alias_invariant` with the decided hypothesis -/
+theorem alias_invariant_decided {coll : Coll} {ls ls' : List Str} (h : sameLookupsB coll ls ls' = true)
+    (cur : Option (Cmd × List Str)) : walk coll cur ls = walk coll cur ls' :=
+  alias_invariant (sameLookupsB_sound _ _ _ h) cur
+
+/-! ## Non-vacuity of every theorem above that has hypotheses
+
+The tree: `server` (alias `srv`) with the sub-commands `add` (alias `a`) and `remove`, and the
+top-level default command `list`. -/
+def noFmt : Fmt := { cmds := [], args := [], opts := [] }
+def listC : Cmd := Cmd.mk "list".toList [] true false noFmt false []
+def app1 : List Cmd := [server, listC]
+def cvN : Conv := { intOf := fun _ => none, floatOf := fun _ => none }
+
+/-- `options_after_path`, `lead_of_path`: all hypotheses hold for `server add --x y` -/
+example : lead ["server".toList, "add".toList, "--x".toList, "y".toList] = ["server".toList, "add".toList] :=
+  options_after_path ["server".toList, "add".toList] ["y".toList] "--x".toList (by decide) rfl
+example : lead ["server".toList, "add".toList] = ["server".toList, "add".toList] :=
+  lead_of_path _ (by decide)
+
+/-- `walk_none_iff` (right to left) and `resolve_unknown_first`: `nope add` -/
+example : walk (namedColl app1) none ["nope".toList, "add".toList] = none :=
+  (walk_none_iff _ _).mpr (Or.inr ⟨_, _, rfl, by decide⟩)
+example : resolve cvN app1 ["nope".toList, "add".toList, "--x".toList] = .error .cannotResolve :=
+  resolve_unknown_first cvN app1 _ "nope".toList ["add".toList] (by decide) (by decide)
+
+/-- `alias_invariant_decided` / `sameLookupsB_sound` / `alias_invariant`: `srv a` vs `server add` -/
+theorem srv_a_same : sameLookupsB (namedColl app1) ["srv".toList, "a".toList] ["server".toList, "add".toList] = true := by
+  decide
+example : SameLookups (namedColl app1) ["srv".toList, "a".toList] ["server".toList, "add".toList] :=
+  sameLookupsB_sound _ _ _ srv_a_same
+example : walk (namedColl app1) none ["srv".toList, "a".toList] = walk (namedColl app1) none ["server".toList, "add".toList] :=
+  alias_invariant_decided srv_a_same none
+/-- the check is not constantly true: `srv` and `list` are different commands -/
+example : sameLookupsB (namedColl app1) ["srv".toList] ["list".toList] = false := by decide
+
+/-- `get?_alias` on the real shape of a collection: alias `srv`, name `server` -/
+example : (namedColl app1).get? "srv".toList = some server :=
+  (get?_alias (namedColl app1) "srv".toList "server".toList server (by decide) (by decide) rfl).1
+
+/-- `walk_deepest`: the walk on `srv nope add` stops at `server`; the theorem's hypothesis holds and
+its conclusion gives a maximal path -/
+theorem walk_srv : walk (namedColl app1) none ["srv".toList, "nope".toList, "add".toList]
+    = some (server, ["server".toList]) := rfl
+example : ∃ k, 1 ≤ k ∧ k ≤ 3 ∧ IsPath (namedColl app1) (["srv".toList, "nope".toList, "add".toList].take k) server ∧
+    (k = 3 ∨ ∃ n, ["srv".toList, "nope".toList, "add".toList][k]? = some n ∧ (namedColl server.subs).get? n = none) :=
+  walk_deepest _ _ _ _ walk_srv
+
+/-- `resolve_deepest` on the same line, `resolve_no_lead` on the empty line -/
+example : resolve cvN app1 ["srv".toList, "nope".toList, "add".toList] =
+    match pickDefault cvN ["srv".toList, "nope".toList, "add".toList] ["server".toList] (defaultColl server.subs).values none with
+    | .error e => .error e
+    | .ok (some r) => created r
+    | .ok none =>
+      match tryParse cvN server ["srv".toList, "nope".toList, "add".toList] with
+      | .error e => .error e
+      | .ok a => created (["server".toList], a) :=
+  resolve_deepest cvN app1 _ server ["server".toList] walk_srv
+example : resolve cvN app1 [] = .ok (["list".toList], { args := [], opts := [] }) := by
+  rw [resolve_no_lead cvN app1 [] rfl]; rfl
+
+/-- `pickDefault_first_parsable`: of the two default commands `strict` (one required argument) and
+`listC`, the empty line selects the second (the first does not parse); `pickDefault_none_parsable`: the
+line `x y` parses for neither of them (surplus positionals), so the first candidate is reported -/
+def strictC : Cmd := Cmd.mk "strict".toList [] true false
+  { cmds := [], opts := [], args := [{ name := "a".toList, required := true, multi := false, ty := .string,
+                                        nullable := false, default := .scalar .none }] } false []
+example : pickDefault cvN [] [] [strictC, listC] none = .ok (some (["list".toList], some { args := [], opts := [] })) :=
+  pickDefault_first_parsable cvN [] [] [strictC, listC] none listC { args := [], opts := [] } [strictC] [] rfl
+    (by intro x hx; simp at hx; subst hx; rfl) rfl
+example : pickDefault cvN ["x".toList, "y".toList] [] [strictC, listC] none = .ok (some (["strict".toList], none)) :=
+  pickDefault_none_parsable cvN ["x".toList, "y".toList] [] [strictC, listC] none
+    (by intro x hx; simp at hx; rcases hx with hx | hx <;> subst hx <;> rfl)
 
 end Clikit.Props.C03
